@@ -21,16 +21,28 @@
                    in byte order, with the length of their longest common prefix
      MinMaxOK      min/max bound exactly the non-nil children (what enumeration relies on)
 
-   `hist` is a history variable (one witness insertion order per canonical state); it is
-   excluded from the VIEW and emitted with every transition so the Go harness can replay
-   the transition on the real trie.                                                      *)
+   `hist` is a history variable (one witness history per canonical state: a sequence of
+   [op, w] with op = "ins" for a plain Insert(w), "var" / "func" for a name recorded by the
+   evaluator); it is excluded from the VIEW and emitted with every transition so the Go
+   harness can replay the transition on the real trie.
+
+   Recorded names (Names # {}).  The index of a REPL session is fed from two sides:
+   repl.Interactive inserts words itself (keyword + " ", builtin + "(", the bare word
+   history) and object/state.go record() inserts, for every top-level definition of
+   `name`, the words name + " " (name + "(" for a function) and name.  Record(n, k)
+   transcribes record(): two insertions from the root.  In that mode the plain
+   insertions range over the words of that vocabulary (a name, bare or with one of
+   the two suffixes), so that every way a definition can meet what the index already
+   holds is enumerated: the name is a bare leaf, an inner node, has one suffix and gets
+   the other, is a prefix / an extension of another name, was defined before.           *)
 EXTENDS Integers, Sequences, FiniteSets, SequencesExt, TLC, Json, GrolPrims
 
 CONSTANTS Alphabet,        \* set of byte values
           MaxLen,          \* maximal word length
           MaxSet,          \* state constraint: explore sets up to this cardinality
           MarkPrefixValid, \* BOOLEAN, see above
-          EmitOn           \* BOOLEAN: emit every transition (GEN)
+          EmitOn,          \* BOOLEAN: emit every transition (GEN)
+          Names            \* set of strings: the identifiers the evaluator may define ({} = plain insertions only)
 
 VARIABLES nodes, set, hist
 vars == <<nodes, set, hist>>
@@ -38,6 +50,15 @@ view == <<nodes, set>>
 
 Words    == UNION {[1..n -> Alphabet] : n \in 1..MaxLen}
 Prefixes0 == UNION {[1..n -> Alphabet] : n \in 0..MaxLen}   \* query prefixes, incl. empty
+
+\* the vocabulary of a session: names, and what record() derives from them
+Space == 32
+Paren == 40
+NameWords   == {StrBytes(n) : n \in Names}
+Suffix(k)   == IF k = "func" THEN <<Paren>> ELSE <<Space>>
+RecWords    == NameWords \cup {n \o <<Space>> : n \in NameWords} \cup {n \o <<Paren>> : n \in NameWords}
+PlainWords  == IF Names = {} THEN Words ELSE RecWords
+ASSUME Names # {} => RecWords \subseteq Words
 
 \* byte order on words = Go string order
 RECURSIVE LexLess(_, _)
@@ -109,22 +130,20 @@ ImplContains(ns, w) ==
 (* trie.AllBytes from a node: returns <<longest, sequence of words>>, transcribed:
    the loop runs over min..max, skipping nil children.                              *)
 RECURSIVE ImplAll(_, _, _)
-RECURSIVE ImplAllLoop(_, _, _, _, _)
-ImplAllLoop(ns, path, b, acc, prefix) ==
-  \* acc = [longest, res, num]
-  LET t == ns[path] IN
-  IF b > t.max THEN acc
-  ELSE IF b \notin Alphabet \/ t.ch[b] = "nil" THEN ImplAllLoop(ns, path, b + 1, acc, prefix)
-  ELSE LET np  == Append(prefix, b)
-           sub == IF t.ch[b] = "end" THEN <<Len(np), <<np>>>> ELSE ImplAll(ns, Append(path, b), np)
-           a2  == [longest |-> Max2(acc.longest, sub[1]), res |-> acc.res \o sub[2], num |-> acc.num + 1]
-       IN ImplAllLoop(ns, path, b + 1, a2, prefix)
 ImplAll(ns, path, prefix) ==
   LET t    == ns[path]
       a0   == [longest |-> Len(prefix),
                res     |-> IF t.valid THEN <<prefix>> ELSE <<>>,
                num     |-> IF t.valid THEN 1 ELSE 0]
-      a    == ImplAllLoop(ns, path, t.min, a0, prefix)
+      \* for i := t.min; i <= t.max; i++  (a fold, not a recursion: TLC's cost of a recursion grows with its depth,
+      \* and a full node has 256 children)
+      range == IF t.max < t.min THEN <<>> ELSE [i \in 1..(t.max - t.min + 1) |-> t.min + i - 1]
+      Step(acc, b) ==  \* acc = [longest, res, num]
+        IF b \notin Alphabet \/ t.ch[b] = "nil" THEN acc
+        ELSE LET np  == Append(prefix, b)
+                 sub == IF t.ch[b] = "end" THEN <<Len(np), <<np>>>> ELSE ImplAll(ns, Append(path, b), np)
+             IN [longest |-> Max2(acc.longest, sub[1]), res |-> acc.res \o sub[2], num |-> acc.num + 1]
+      a    == FoldLeft(Step, a0, range)
   IN <<IF a.num > 1 THEN Len(prefix) ELSE a.longest, a.res>>
 
 ImplPrefixAll(ns, p) ==
@@ -140,21 +159,34 @@ Init == /\ nodes = (<<>> :> NewNode(FALSE))
 
 AbsLcp(S, p) == IF Matches(S, p) = {} THEN 0 ELSE LcpLen(Matches(S, p), Len(p))
 
-Emit(w) ==
+SortedPrefixes == Sorted(Prefixes0)   \* constant: evaluated once
+
+Emit(op, w) ==
   EmitOn => EmitLine(ToJson([h   |-> hist,
+                             op  |-> op,
                              w   |-> w,
                              set |-> Sorted(set'),
-                             lcp |-> [i \in 1..Cardinality(Prefixes0) |->
-                                        LET p == Sorted(Prefixes0)[i] IN <<p, AbsLcp(set', p)>>]]))
+                             lcp |-> [i \in 1..Len(SortedPrefixes) |->
+                                        LET p == SortedPrefixes[i] IN <<p, AbsLcp(set', p)>>]]))
 
 Insert(w) ==
   /\ Cardinality(set) < MaxSet \/ w \in set
   /\ nodes' = Ins(nodes, <<>>, w, 1)
   /\ set'   = set \cup {w}
-  /\ hist'  = Append(hist, w)
-  /\ Emit(w)
+  /\ hist'  = Append(hist, [op |-> "ins", w |-> w])
+  /\ Emit("ins", w)
 
-Next == \E w \in Words : Insert(w)
+\* object/state.go record(ids, name, type): ids.Insert(name + "(" or " "); ids.Insert(name)
+Record(n, k) ==
+  LET ws == n \o Suffix(k) IN
+  /\ Cardinality(set \cup {ws, n}) <= MaxSet
+  /\ nodes' = Ins(Ins(nodes, <<>>, ws, 1), <<>>, n, 1)
+  /\ set'   = set \cup {ws, n}
+  /\ hist'  = Append(hist, [op |-> k, w |-> n])
+  /\ Emit(k, n)
+
+Next == \/ \E w \in PlainWords : Insert(w)
+        \/ \E n \in NameWords, k \in {"var", "func"} : Record(n, k)
 
 Spec == Init /\ [][Next]_vars
 
